@@ -129,8 +129,14 @@ async def scenario(loop, case, out, stats, fps, samples):
         for i in range(n):
             qi = rnd.randrange(nq)
             fails = case["fail"] and rnd.random() < 0.3
+            # a failure pattern of its own: the actor lets a CancelledError escape (not an Exception: the execution ends
+            # without a disposition, but its slot must come back and the other jobs must go on)
+            leaks = case["fail"] and not fails and rnd.random() < 0.2
             steps = ([{"do": "raise", "d": ds[i]}] if fails else []) + [{"do": "ok", "d": ds[i]}]
-            jobs.append({"id": f"j{i:03d}", "name": f"act{qi}", "queue": queues[qi], "script": {"by_attempt": steps}, "d": ds[i] * (2 if fails else 1), "retries": 1})
+            if leaks:
+                steps = [{"do": "raise", "exc": "CancelledError", "d": ds[i]}]
+                stats["leaked_cancellations"] += 1
+            jobs.append({"id": f"j{i:03d}", "name": f"act{qi}", "queue": queues[qi], "script": {"by_attempt": steps}, "d": ds[i] * (2 if fails else 1), "retries": 1, "leaks": leaks})
         arr = case["arr"]
         enq_at = {}
 
@@ -174,8 +180,12 @@ async def scenario(loop, case, out, stats, fps, samples):
 
         prod = loop.create_task(producer())
 
+        leaking = {j["id"] for j in jobs if j["leaks"]}
+
         def done():
-            return not rest and len({e["id"] for e in w.log.events if e.get("k") == "call" and e.get("depth") == 0 and e.get("op") in ("ack", "nack")}) >= n
+            fin = {e["id"] for e in w.log.events if e.get("k") == "call" and e.get("depth") == 0 and e.get("op") in ("ack", "nack")}
+            fin |= {e["id"] for e in w.log.events if e.get("k") == "actor_exit" and e["id"] in leaking}
+            return not rest and len(fin) >= n
 
         bound = total / min(limit, n) + max(ds) * 2 + n * delta + 12.0 + (n * 0.4 if arr in ("trickle", "burst") else 0) + (sum(sorted(ds)[-n:]) if arr == "slot_free" else 0)
         info = await run_worker(w, worker, until=done, horizon=bound, poll=0.1)
@@ -191,14 +201,22 @@ async def scenario(loop, case, out, stats, fps, samples):
             if e["inflight"] > limit:
                 out.append(V("over_limit", kind, ctx, f"{e['inflight']} actor invocations in progress at +{e['t']:.3f}s with tasks_limit={limit} ({case['nq']} queues)"))
                 break
+        leaked_started = [e["id"] for e in starts if e["id"] in leaking]
+        if kind == "rabbit" and leaked_started:
+            # RabbitMQ counts the never-acknowledged delivery against the prefetch window (= tasks_limit) for good: the
+            # window shrinks by one per leaked cancellation. One mechanism, one key.
+            ctx_progress = "unacked-after-leaked-cancellation"
+        else:
+            ctx_progress = ctx
         reached = max((e["inflight"] for e in starts), default=0)
         if reached >= min(limit, n) and limit < 1000:
             stats["runs_saturated"] += 1
         finished = {e["id"] for e in w.log.events if e.get("k") == "call" and e.get("depth") == 0 and e.get("op") in ("ack", "nack")}
+        finished |= {e["id"] for e in exits if e["id"] in leaking}  # executed; what happens to their messages is not C09's subject
         missing = [j["id"] for j in jobs if j["id"] not in finished]
         if missing:
             never = [m for m in missing if not any(s["id"] == m for s in starts)]
-            out.append(V("stall", kind, ctx, f"{len(missing)} of {n} jobs not finished within the bound {bound:.1f}s (never started: {never[:5]}); max in flight {reached}; state {dict(list(w.rig.snapshot().items())[:4])}"))
+            out.append(V("stall", kind, ctx_progress, f"{len(missing)} of {n} jobs not finished within the bound {bound:.1f}s (never started: {never[:5]}); max in flight {reached}; state {dict(list(w.rig.snapshot().items())[:4])}"))
         # refill: a slot freed while a started-able backlog exists is taken again within REFILL seconds
         if not missing:
             first_start = {}
@@ -213,7 +231,7 @@ async def scenario(loop, case, out, stats, fps, samples):
                 stats["refills_judged"] += 1
                 nxt = min((s["t"] for s in starts if s["t"] >= x["t"]), default=None)
                 if nxt is None or nxt - x["t"] > REFILL:
-                    out.append(V("slow_refill", kind, ctx, f"a slot freed at +{x['t']:.3f}s with {len(waiting)} jobs waiting, next start at {nxt}"))
+                    out.append(V("slow_refill", kind, ctx_progress, f"a slot freed at +{x['t']:.3f}s with {len(waiting)} jobs waiting, next start at {nxt}"))
                     break
         nb = "s" if n <= 8 else "m" if n <= 20 else "l"
         if reached >= min(limit, n) or limit >= 1000:
